@@ -909,5 +909,60 @@ pub fn run(c: &mut Ctx) {
         );
         c.count("utc-name:compared");
     }
+    // ---- round 3: `DateTime<Utc>::format` (the public entry point): model `ParseFrom.formatUtc`; direct oracle:
+    // `%Z` prints the zone's own name `UTC`, every other specifier what the same instant prints at FixedOffset 0
+    let utc_fmts = ["%Z", "%F %T %Z %z %:z", "%c|%Z|%s", "%+ %Z", "%Y-%m-%dT%H:%M:%S%.f %Z é\u{3000}%j", "%Z%Z %::z %:::z"];
+    for _ in 0..c.n(600, 6000) {
+        let (d, t) = (gen_date_b(c), gen_time(c));
+        let f = *c.rng.pick(&utc_fmts);
+        let dt = Utc.from_utc_datetime(&d.and_time(t));
+        let r = guard(|| {
+            use std::fmt::Write;
+            let mut s = String::new();
+            write!(s, "{}", dt.format(f)).map(|_| s).map_err(|_| ())
+        });
+        c.op(&format!("fmu.f {} {} {} {}", hex(f.as_bytes()), yof(&d), t.num_seconds_from_midnight(), t.nanosecond()), &show_w(&r));
+        c.count("utc-format:compared");
+        let fixed = FixedOffset::east_opt(0).unwrap().from_utc_datetime(&d.and_time(t));
+        let want = guard(|| {
+            use std::fmt::Write;
+            let mut s = String::new();
+            // reference: format piecewise at +00:00 with every `%Z` replaced by the literal name
+            for (i, part) in f.split("%Z").enumerate() {
+                if i > 0 { s.push_str("UTC"); }
+                write!(s, "{}", fixed.format(part)).map_err(|_| ())?;
+            }
+            Ok(s)
+        });
+        if r != want {
+            c.fail("DateTime<Utc>::format: %Z is not the name UTC / other specifiers differ from +00:00",
+                &format!("fmt={:?} value={:?} got={:?} want={:?}", f, dt, r, want));
+        }
+    }
+    // ---- round 3: the two headroom wall-clock dates through the public `format` (direct oracle with literal texts
+    // of the calendar's own day: -262144-12-31 is day 366, a Wednesday; +262143-01-01 is day 1, a Tuesday)
+    for _ in 0..c.n(300, 3000) {
+        let secs = 1 + c.rng.below(86399) as i32;
+        let hi = c.rng.chance(1, 2);
+        let off = FixedOffset::east_opt(if hi { secs } else { -secs }).unwrap();
+        let base = if hi { chrono::NaiveDateTime::MAX } else { chrono::NaiveDateTime::MIN };
+        // a UTC reading within `secs` of the range end, so that the wall clock is in the headroom day
+        let back = c.rng.below(secs as u64) as i64;
+        let u = if hi { base - chrono::TimeDelta::seconds(back) } else { base + chrono::TimeDelta::seconds(back) };
+        let dt = off.from_utc_datetime(&u);
+        let f = "%Y-%m-%d %j %a %A %b %B %U %W %G %g %V %u %w %C %y %e %q";
+        let r = guard(|| {
+            use std::fmt::Write;
+            let mut s = String::new();
+            write!(s, "{}", dt.format(f)).map(|_| s).map_err(|_| ())
+        });
+        let want = if hi { "+262143-01-01 001 Tue Tuesday Jan January 00 00 +262143 43 01 2 2 2621 43  1 1" }
+                   else { "-262144-12-31 366 Wed Wednesday Dec December 52 52 -262143 57 01 3 3 -2622 56 31 4" };
+        if r != Ok(Ok(want.to_string())) {
+            c.fail("headroom wall clock: DateTime::format does not print the calendar's own day",
+                &format!("utc={:?} off={} got={:?} want={:?}", u, off.local_minus_utc(), r, want));
+        }
+        c.count("headroom-format:oracle");
+    }
     let _ = is_leap;
 }
